@@ -22,7 +22,7 @@ from .. import tlc
 from ..core import pool_map
 
 MODULE = "mimo/Mimo.tla"
-INVARIANTS = ["RoundTrip", "FilterFresh", "MmseBound", "ScaleLaw", "ScalesCancel", "EnergyPreserved", "ChannelUses", "AlamoutiOrthogonal", "ZfDefining",
+INVARIANTS = ["RoundTrip", "FilterFresh", "MmseBound", "ScaleLaw", "ColumnScaleLaw", "HighNoiseDefining", "ScalesCancel", "EnergyPreserved", "ChannelUses", "AlamoutiOrthogonal", "ZfDefining",
               "MmseDefining", "MmseTendsToZf", "MrtCophased", "SinrFirstPrinciples", "ZfSinrClosedForm",
               "BadLengthRaises"]
 ACTIONS = ["SetChannel", "Encode", "Transmit", "SetNoiseVar", "Decode", "Query", "Rejected", "Filters", "EncodeBadLength"]
@@ -31,6 +31,8 @@ DEVS = ["SvdNeedsSquare", "SinrCoherentInterference", "NvNoneKeepsFilter", "Quer
         "GmdAbsoluteTol", "GmdTieBreaks"]
 # channel k is handed to the implementation as 10^SCALES[k % 8] * H (gain sweep 1e-7 .. 1e7, half of the channels at unit gain)
 SCALES = [0, -7, 0, 7, 0, -4, 0, 3]
+CG_EVERY = 7           # channels with k % 7 = 3 (Blast / SVD / GMD, Nt >= 2) get column gains 10^-(0,2,4,1,3,..): ill conditioned
+HI_NOISE = [4, 16]     # noise variances > 1 (times gain^2): the high-noise regime of the MMSE filter
 ISO_EVERY = 5          # every 5th channel of blast / svd / gmd is a scaled isometry (all singular values equal)
 QUERY_Q = 2
 VANISH = [2, 4, 6, 8, 10, 12, 14, 16]      # noise variances 10^-e along which MMSE -> ZF is followed
@@ -59,10 +61,10 @@ def build(schemes, shapes, klo, khi, seed, ndata, qs, decqs, alpha=ALPHA, pyth=P
     defs = {"Schemes": tlc.tla(set(schemes)),
             "Shapes": "{" + ", ".join(tlc.tla(list(s)) for s in shapes) + "}",
             "Alpha": tlc.tla(alpha), "Pyth": tlc.tla(pyth), "Syms": tlc.tla(SYMS),
-            "Scales": tlc.tla(SCALES), "Qs": tlc.tla(qs), "DecQs": tlc.tla([sorted(d) for d in decqs]), "Vanish": tlc.tla(VANISH),
+            "Scales": tlc.tla(SCALES), "HiNoise": tlc.tla(HI_NOISE), "Qs": tlc.tla(qs), "DecQs": tlc.tla([sorted(d) for d in decqs]), "Vanish": tlc.tla(VANISH),
             "Dev": tlc.tla({d: (d in dev) for d in DEVS})}
     cfg = tlc.cfg_text(constants={"KLo": str(klo), "KHi": str(khi), "Seed": str(seed % 65536), "NData": str(ndata),
-                                  "HistEvery": str(hist_every), "HistDeep": str(hist_deep), "QueryQ": str(QUERY_Q), "IsoEvery": str(ISO_EVERY)},
+                                  "HistEvery": str(hist_every), "HistDeep": str(hist_deep), "QueryQ": str(QUERY_Q), "IsoEvery": str(ISO_EVERY), "CgEvery": str(CG_EVERY)},
                        defs=defs, invariants=INVARIANTS, properties=PROPERTIES, action_constraints=["Emit"] if emit else [])
     return cfg, defs
 
@@ -150,6 +152,9 @@ def gain(rec):
 
 def chan_arg(rec):
     H = gain(rec) * imat(rec["H"])
+    cg = rec.get("cg")
+    if cg and any(cg):
+        H = H * (10.0 ** (-np.array(cg, dtype=float)))[np.newaxis, :]       # H D: column gains
     if rec["form"] == "1d":
         return (H[:, 0].copy() if rec["sch"] == "mrc" else H[0, :].copy()), H
     return H.copy(), H
@@ -183,7 +188,7 @@ class Bench:
             else:
                 o.set_noise_var(0.0)
         self.objs[sch] = o
-        self.prev[sch] = {"H": rec["H"], "form": rec["form"], "sch": sch, "k": rec["k"], "q": q or 0, "sc": rec.get("sc", 0)}
+        self.prev[sch] = {"H": rec["H"], "form": rec["form"], "sch": sch, "k": rec["k"], "q": q or 0, "sc": rec.get("sc", 0), "cg": rec.get("cg")}
         out["hist"] = hist
         return o, H
 
@@ -225,7 +230,7 @@ class Bench:
                 pass
             o.set_channel_matrix(arg)
             out["hist"] = prev
-        self.prev[sch] = {"H": rec["H"], "form": rec["form"], "sch": sch, "k": rec["k"], "q": 0, "sc": rec.get("sc", 0)}
+        self.prev[sch] = {"H": rec["H"], "form": rec["form"], "sch": sch, "k": rec["k"], "q": 0, "sc": rec.get("sc", 0), "cg": rec.get("cg")}
         return o, H
 
     def preload(self, hist):
@@ -320,6 +325,43 @@ class Guard:
                 return
 
 
+def observe_precoder(o, nt):
+    """the linear precoder, observed publicly and layout-free: encode of the unit blocks of ONE channel use"""
+    cols = []
+    for j in range(nt):
+        e = np.zeros(nt, dtype=complex)
+        e[j] = 1.0
+        cols.append(np.asarray(o.encode(e)).reshape(-1))
+    return np.column_stack(cols)
+
+
+def observe_filter(o, nr, order=None):
+    """the linear receive filter, observed publicly: decode of unit received columns (layout-free, order=None) or of
+    the identity block once the layout of the scheme's decode is known; returns (G, order)"""
+    cols = []
+    if order is None:
+        for i in range(nr):
+            e = np.zeros((nr, 1), dtype=complex)
+            e[i, 0] = 1.0
+            cols.append(np.asarray(o.decode(e)).reshape(-1))
+        G = np.column_stack(cols)
+        d = np.asarray(o.decode(np.eye(nr, dtype=complex))).reshape(-1)
+        for cand in ("F", "C"):
+            if d.size == G.size and np.allclose(d.reshape(G.shape, order=cand), G, rtol=1e-9, atol=1e-12 * max(1.0, np.abs(G).max())):
+                return G, cand
+        return G, None
+    d = np.asarray(o.decode(np.eye(nr, dtype=complex))).reshape(-1)
+    nt = d.size // nr
+    return d.reshape((nt, nr), order=order), order
+
+
+def mmse_relation(Heq, G, s, nt):
+    """relative residual of the defining equation  (Heq^H Heq + s I) G = sqrt(Nt) Heq^H"""
+    A = Heq.conj().T.dot(Heq) + s * np.eye(Heq.shape[1])
+    rhs = math.sqrt(nt) * Heq.conj().T
+    return float(np.linalg.norm(A.dot(G) - rhs) / max(np.linalg.norm(A) * np.linalg.norm(G), np.linalg.norm(rhs), 1e-300))
+
+
 def rejected_calls(sch, o, nr, nt, x):
     """the calls the scheme documents as refused (ValueError)"""
     out = []
@@ -339,7 +381,7 @@ def eval_link(rec, bench, res):
     sch, nr, nt = rec["sch"], rec["nr"], rec["nt"]
     steps = rec["steps"]
     gn = gain(rec)           # noise variances are given as gn^2 / q: decoded blocks and SINRs do not depend on the gain
-    tag = f"{sch} {nr}x{nt} k={rec['k']} gain=1e{rec.get('sc', 0)}{' isometry' if rec.get('iso') else ''} history={[st['a'] for st in steps]}"
+    tag = f"{sch} {nr}x{nt} k={rec['k']} gain=1e{rec.get('sc', 0)}{' isometry' if rec.get('iso') else ''}{' colgain' if rec.get('cg') and any(rec['cg']) else ''} history={[st['a'] for st in steps]}"
     g = Guard(res, tag, rec["k"] + len(steps))
     okc, r = call(res, "configure", bench.link_obj, rec, res.extra, g)
     if not okc:
@@ -361,11 +403,11 @@ def eval_link(rec, bench, res):
     res.check(close(np.linalg.norm(enc) ** 2 / T, e_exp),
               f"{tag}: EnergyPreserved fails: transmitted energy per channel use {np.linalg.norm(enc) ** 2 / T:.12g}, "
               f"mean symbol energy {e_exp:.12g}")
-    rel = rec["tx"]["kind"] == "rel"
-    if not rel:
+    if rec["tx"]["kind"] != "rel":
         res.check(close(enc, signal(rec["tx"])), f"{tag}: encode(x) differs from the exact transmitted signal")
     enc0 = enc.copy()
     want = {d["q"]: np.array([gc(w) for w in d["out"]["v"]], dtype=complex) for d in rec["decs"]}
+    kinds = {d["q"]: d["out"]["kind"] for d in rec["decs"]}
     first = True
     for i, st in enumerate(steps):
         a = st["a"]
@@ -411,7 +453,24 @@ def eval_link(rec, bench, res):
             return res.bad(f"{tag}: step {i}: decode raised {res.extra['exception']}", fid)
         dec = np.asarray(dec)
         w = want[q]
-        if rel:
+        if kinds[q] == "relmmse":
+            # (rel) MMSE receiver on the equivalent channel Heq = H W sqrt(Nt): the filter satisfies its defining
+            # equation and the decoded block is that filter applied to the received block
+            try:
+                Wp = observe_precoder(o, nt)
+                Gf, order = observe_filter(o, nr)
+            except Exception as ex:  # noqa
+                return res.bad(f"{tag}: step {i}: observing precoder / filter raised {type(ex).__name__}: {ex}")
+            Heq = math.sqrt(nt) * H.dot(Wp)
+            r_def = mmse_relation(Heq, Gf, gn ** 2 / q, nt)
+            if not res.check(r_def <= RTOL_REL, f"{tag}: step {i}: MmseDefiningOnEquivalentChannel fails (sigma^2=1/{q}): relative residual {r_def:.3e}"):
+                return
+            est = Gf.dot(H.dot(np.asarray(enc2)))
+            if not res.check(dec.size == est.size and (close(dec.reshape(-1), est.reshape(-1, order="F"), RTOL_REL)
+                                                       or close(dec.reshape(-1), est.reshape(-1, order="C"), RTOL_REL)),
+                             f"{tag}: step {i}: decode is not the receive filter applied to the received block (sigma^2=1/{q})"):
+                return
+        elif kinds[q] == "rel":
             if not res.check(dec.shape == w.shape and close(dec, w, RTOL_REL),
                              f"{tag}: step {i}: DecodeEqualsData fails: decode(H encode(x)) differs from x by "
                              f"{np.abs(dec.reshape(-1) - w).max() if dec.size == w.size else 'shape ' + str(dec.shape)}"):
@@ -438,7 +497,7 @@ def eval_filters(rec, bench, res):
     flt = rec["flt"]
     cls, mimo = classes()
     gn = gain(rec)           # observed filters are compared after multiplication with the gain (ZF(gH) = ZF(H)/g)
-    tag = f"{sch} {nr}x{nt} k={rec['k']} gain=1e{rec.get('sc', 0)}{' isometry' if rec.get('iso') else ''}"
+    tag = f"{sch} {nr}x{nt} k={rec['k']} gain=1e{rec.get('sc', 0)}{' isometry' if rec.get('iso') else ''}{' colgain' if rec.get('cg') and any(rec['cg']) else ''}"
     lin = getattr(mimo, "calc_post_processing_linear_SINRs", None)
     dbf = getattr(mimo, "calc_post_processing_SINRs", None)
     if flt["kind"] == "blast":
@@ -534,8 +593,69 @@ def eval_filters(rec, bench, res):
         if f_rf is not None:
             res.check(close(gn * f_rf(H.copy(), 0.0), rt * zf) and close(gn * f_rf(H.copy(), None), rt * zf),
                       f"{tag}: _calc_receive_filter(H, 0 / None) differs from sqrt(Nt) ZF")
+        # high noise: sigma^2 = 4, 16 (times gain^2), exact filters from TLC
+        for hn in flt.get("hn", []):
+            nv = gn ** 2 * hn["s"]
+            mm = imat(hn["num"]) / hn["den"]
+            o.set_noise_var(nv)
+            okc, d = call(res, "decode", o.decode, np.eye(nr, dtype=complex))
+            if not okc:
+                res.bad(f"{tag}: decode(I) with noise variance {hn['s']} raised {res.extra['exception']}")
+                break
+            res.check(close(gn * np.asarray(d).reshape((nt, nr), order="F"), rt * mm),
+                      f"{tag}: MMSE receive filter at high noise (sigma^2={hn['s']}) differs from sqrt(Nt) (H^H H + sigma^2 I)^-1 H^H")
         okc, e = call(res, "set_noise_var", o.set_noise_var, -1.0)
         res.check((not okc) and isinstance(e, ValueError), f"{tag}: set_noise_var(-1) did not raise ValueError")
+    elif flt["kind"] == "rel":
+        # GMDMimo (any shape) and Blast with Nt >= 4: relations on the equivalent channel, evaluated numerically (rel)
+        okc, r = call(res, "configure", bench.obj, rec, 0, res.extra)
+        if not okc:
+            return res.bad(f"{tag}: configuring raised {res.extra['exception']}")
+        o, H = r
+        rt = math.sqrt(nt)
+        try:
+            Wp = observe_precoder(o, nt)
+            o.set_noise_var(0.0)
+            G0, order = observe_filter(o, nr)
+        except Exception as ex:  # noqa
+            return res.bad(f"{tag}: observing precoder / zero-forcing filter raised {type(ex).__name__}: {ex}")
+        if order is None:
+            return res.bad(f"{tag}: decode(I) is not the column-wise filter in row- or column-major layout")
+        res.check(close(np.linalg.norm(Wp) ** 2, 1.0, RTOL_REL), f"{tag}: precoder does not have unit Frobenius norm")
+        Heq = rt * H.dot(Wp)
+        res.check(close(G0.dot(Heq) / rt, np.eye(nt), RTOL_REL),
+                  f"{tag}: ZfLeftInverseOnEquivalentChannel fails: F Heq != sqrt(Nt) I")
+        if flt.get("zfx"):      # exact side of the column-gain law: ZF(H D) = D^-1 ZF(H)
+            zf = imat(flt["zfx"]["num"]) / flt["zfx"]["den"]
+            dcol = 10.0 ** (-np.array(rec["cg"], dtype=float))
+            res.check(close(gn * dcol[:, np.newaxis] * G0 / rt, zf),
+                      f"{tag}: ColumnScaleLaw fails: zero-forcing filter of H D differs from D^-1 (H^H H)^-1 H^H")
+        nG0 = float(np.linalg.norm(G0))
+        # the code solves the normal equations: its distance to the pseudo-inverse is eps cond(Heq)^2 at best
+        relfloor = max(RTOL_REL, 1e3 * np.finfo(float).eps * float(np.linalg.cond(Heq)) ** 2)
+        settings = [(f"1/{qv}", gn ** 2 / qv) for qv in flt["qs"]] + [(str(sv), gn ** 2 * sv) for sv in flt["hn"]]
+        for name, sv in settings:
+            try:
+                o.set_noise_var(sv)
+                Gs, _ = observe_filter(o, nr, order)
+            except Exception as ex:  # noqa
+                return res.bad(f"{tag}: decode(I) with sigma^2={name} raised {type(ex).__name__}: {ex}")
+            r_def = mmse_relation(Heq, Gs, sv, nt)
+            if not res.check(r_def <= RTOL_REL, f"{tag}: MmseDefiningOnEquivalentChannel fails (sigma^2={name}): relative residual {r_def:.3e}"):
+                return
+        cb = float(np.linalg.norm(np.linalg.inv(Heq.conj().T.dot(Heq)))) * nG0
+        for e in flt["vanish"][1::2]:
+            sv = gn ** 2 * 10.0 ** (-e)
+            try:
+                o.set_noise_var(sv)
+                Gs, _ = observe_filter(o, nr, order)
+            except Exception as ex:  # noqa
+                return res.bad(f"{tag}: decode(I) with sigma^2=1e-{e} raised {type(ex).__name__}: {ex}")
+            gap = float(np.linalg.norm(Gs - G0))
+            if not res.check(gap <= sv * cb + relfloor * nG0,
+                             f"{tag}: MmseWithinBoundOfZf fails: ||F(1e-{e}) - F(0)||_F = {gap:.3e} exceeds {sv * cb:.3e} "
+                             f"(relative to ||F(0)|| = {nG0:.3e})"):
+                return
     elif flt["kind"] == "mrt":
         okc, r = call(res, "configure", bench.obj, rec, 0, res.extra)
         if not okc:
@@ -640,7 +760,7 @@ def plan(ctx):
     seed = ctx.seed
     jobs = []
     if ctx.tier == "quick":
-        nch, parts, ndata = 96, 8, 2
+        nch, parts, ndata = 64, 8, 2
         qs = [[1, 4, 16]] * 4
         dq = [{4}] * 4
         step = nch // parts
@@ -664,30 +784,37 @@ def plan(ctx):
     return jobs
 
 
-def model_stage(ctx):
-    """coverage of the actions on a small instance + refutation of each named deviation"""
+def model_jobs(ctx):
+    """coverage of the actions on a small instance + refutation of each named deviation (one TLC run each, run
+    side by side with the emission runs)"""
     qs = [[1, 4, 16]] * 4
-    cfg, defs = build(ALL, [(1, 1), (1, 2), (2, 1), (2, 2), (3, 2), (5, 5)], 1, 2, ctx.seed, 1, qs, [{4}] * 4, emit=False,
-                      hist_every=2, hist_deep=3)
-    r = tlc_run(cfg, defs, coverage=True)
-    ctx.account(r, MODULE, "intended/coverage")
-    ctx.require_actions(ACTIONS)
-    want = {"SvdNeedsSquare": (("RoundTrip",), ["svd"], [(2, 2), (3, 2)]),
-            "SinrCoherentInterference": (("SinrFirstPrinciples",), ["blast"], [(2, 2), (3, 3)]),
+
+    def coverage():
+        cfg, defs = build(ALL, [(1, 1), (1, 2), (2, 1), (2, 2), (3, 2), (5, 5)], 1, 2, ctx.seed, 1, qs, [{4}] * 4, emit=False,
+                          hist_every=2, hist_deep=3)
+        r = tlc_run(cfg, defs, coverage=True)
+        return ("coverage", r)
+
+    want = {"SvdNeedsSquare": (("RoundTrip",), ["svd"], [(3, 2)], 2, 2),
+            "SinrCoherentInterference": (("SinrFirstPrinciples",), ["blast"], [(3, 3)], 2, 2),
             # needs the history  set_noise_var(1/q), decode, set_noise_var(None), decode  on one object
-            "NvNoneKeepsFilter": (("RoundTrip", "FilterFresh"), ["blast", "mrc"], [(2, 1), (2, 2)]),
+            "NvNoneKeepsFilter": (("RoundTrip", "FilterFresh"), ["blast", "mrc"], [(2, 1), (2, 2)], 2, 4),
             # a query / a refused call inside a history must leave the later decodes alone
-            "QuerySetsNoiseVar": (("QueryIsPure", "RoundTrip", "FilterFresh"), ["blast", "mrc"], [(2, 1), (2, 2)]),
-            "RejectedKeepsEffect": (("RejectedChangesNothing", "RoundTrip"), ["alamouti", "mrt"], [(1, 2), (2, 2)]),
+            "QuerySetsNoiseVar": (("QueryIsPure", "RoundTrip", "FilterFresh"), ["blast", "mrc"], [(2, 1), (2, 2)], 2, 2),
+            "RejectedKeepsEffect": (("RejectedChangesNothing", "RoundTrip"), ["alamouti", "mrt"], [(1, 2), (2, 2)], 2, 2),
             # a well conditioned channel handed over with gain 1e-7; a scaled isometry (k = ISO_EVERY)
-            "GmdAbsoluteTol": (("RoundTrip",), ["gmd"], [(2, 2), (3, 2)]),
-            "GmdTieBreaks": (("RoundTrip",), ["gmd"], [(2, 2), (3, 2)])}
-    for dev, (inv, schemes, shapes) in want.items():
-        cfg, defs = build(schemes, shapes, 1, ISO_EVERY, ctx.seed, 1, qs, [{4}] * 4, dev=[dev], emit=False, hist_every=1, hist_deep=4)
+            "GmdAbsoluteTol": (("RoundTrip",), ["gmd"], [(2, 2)], 2, 2),
+            "GmdTieBreaks": (("RoundTrip",), ["gmd"], [(2, 2)], ISO_EVERY, 2)}
+
+    def dev_run(dev):
+        inv, schemes, shapes, khi, deep = want[dev]
+        cfg, defs = build(schemes, shapes, 1, khi, ctx.seed, 1, qs, [{4}] * 4, dev=[dev], emit=False, hist_every=1, hist_deep=deep)
         r = tlc_run(cfg, defs)
         if r.violated not in inv:
             raise tlc.TlcError(f"deviation {dev} is not refuted by {inv} of Mimo.tla (TLC reported {r.violated})")
-        ctx.notes.setdefault("deviations_refuted_by_model", {})[dev] = r.violated
+        return (dev, r)
+
+    return [coverage] + [(lambda d=d: dev_run(d)) for d in want]
 
 
 def run(ctx):
@@ -710,10 +837,16 @@ def run(ctx):
 
     nthreads = int(os.environ.get("VERIF_PROCS", "0") or 0) or 15      # TLC processes run side by side
     with ThreadPoolExecutor(max(1, min(nthreads, len(jobs) + 1))) as ex:
-        mf = ex.submit(model_stage, ctx)
+        mfs = [ex.submit(f) for f in model_jobs(ctx)]
         futs = [ex.submit(one, j) for j in jobs]
         runs = [f.result() for f in futs]
-        mf.result()
+        for f in mfs:
+            name, r = f.result()
+            if name == "coverage":
+                ctx.account(r, MODULE, "intended/coverage")
+                ctx.require_actions(ACTIONS)
+            else:
+                ctx.notes.setdefault("deviations_refuted_by_model", {})[name] = r.violated
     recs = []
     seen = set()
     for label, r in runs:
